@@ -16,8 +16,19 @@ INPUT_CLASSES = {
 }
 
 
+def read_page():
+    """the size of ParseFile's read buffer, as the translator found it in api.go today (not a property: only needed to
+    predict how a scripted reader's data is cut)"""
+    try:
+        m = re.search(r'\("ParseFile\.array", (\d+)\)', open(os.path.join(VERIF, "coq", "Gen", "GenTables.v")).read())
+        return int(m.group(1))
+    except Exception:
+        return 4096
+
+
 def effective(data, script):
-    """what the reader will see: [(letter, chunk)] following harness scriptFile.Read (buffer 4096)"""
+    """what the reader will see: [(letter, chunk)] following harness scriptFile.Read"""
+    PAGE = read_page()
     out = []
     for kind, n in script:
         if kind == "x":
@@ -30,19 +41,19 @@ def effective(data, script):
             if not data or n == 0:
                 out.append(("e", b""))
                 return out
-            k = min(n, 4096, len(data))
+            k = min(n, PAGE, len(data))
             out.append(("D", data[:k]))
             data = b""
             continue
         if not data:
             out.append(("e", b""))
             return out
-        k = 0 if kind == "z" else min(n, 4096, len(data))
+        k = 0 if kind == "z" else min(n, PAGE, len(data))
         out.append(("z" if k == 0 else "d", data[:k]))
         data = data[k:]
     while data:
-        out.append(("d", data[:4096]))
-        data = data[4096:]
+        out.append(("d", data[:PAGE]))
+        data = data[PAGE:]
     out.append(("e", b""))
     return out
 
